@@ -81,7 +81,7 @@ def classify(res, case):
     return out
 
 
-PLAN = e1prop.Plan('C09', ROWS, cfgs=('v6', 'v7', 'v7r', 'v5', 'v4'), classify=classify, tweak_case=tweak,
+PLAN = e1prop.Plan('C09', ROWS, cfgs=('v6', 'v7', 'v7r', 'v5', 'v4', 'v7-virt'), classify=classify, tweak_case=tweak,
                    case_kw=lambda rng, row: {'mpu': False, 'mmu': False, 'e': 0})
 
 
